@@ -79,6 +79,7 @@ class Run:
         self.keep = []
         self.gated_cache = gated_cache
         self.xround = {}
+        self.ntryfail = 0
 
     def log(self, *ev):
         self.ctl.trace.append(('ev',) + ev)
@@ -112,6 +113,18 @@ class CLock(GLock):
         if R is None or R.dead or R.ctl.me() is None:
             self.owner = 'x'
             return True
+        if not blocking:
+            # a non-blocking acquire never waits: the gate is always enabled and the attempt FAILS when
+            # the lock is held (the unchanged code never does this; a failed attempt is not part of
+            # the canonical trace, a successful one is an ordinary 'acq')
+            cid = R.cid()
+            R.ctl.gate(f'try:{cid}')
+            if self.owner is None:
+                self.owner = R.ctl.me()
+                R.log('tryok', int(R.ctl.me()[1:]), cid)
+                return True
+            R.ntryfail += 1
+            return False
         R.ctl.gate(f'acq:{R.cid()}', enabled=lambda: self.owner is None)
         self.owner = R.ctl.me()
         return True
@@ -413,6 +426,9 @@ def run_once(case, gated_cache=True, wall=30.0, want_choices=False):
             # nobody: not part of the canonical trace
             if cur.get(e[3]) == e[5]:
                 out.append(list(e[1:5]))
+        elif e[0] == 'ev' and e[1] == 'tryok':
+            cur.pop(e[3], None)
+            out.append(['op', e[2], e[3], 'acq'])
         elif e[0] == 'ev':
             if e[1] == 'done':
                 cur.pop(e[2], None)
@@ -424,6 +440,8 @@ def run_once(case, gated_cache=True, wall=30.0, want_choices=False):
             op = e[1]
             if ':' in op:
                 k, c = op.split(':')
+                if k == 'try':
+                    continue                     # see CLock.acquire(blocking=False)
                 cur.pop(int(c), None)
                 out.append(['op', t, int(c), k])
             elif op == 'idle':
